@@ -405,28 +405,6 @@ def _gen_reads(world: World, case: Case, stream: bytes, ends: list[int]) -> list
     return chunks
 
 
-def _cap_reads(chunks: list[bytes], ends: list[int], limit: int) -> list[bytes]:
-    """avoid_known (open finding D8): never let (bytes of the incomplete frame already held) + (read) exceed the limit
-    while the read still touches a complete frame.  Reads that lie entirely inside the never-terminated tail are free."""
-    upto = ends[-1] if ends else 0
-    out: list[bytes] = []
-    pos = 0
-    for c in chunks:
-        while c:
-            if pos >= upto:
-                out.append(c)
-                pos += len(c)
-                break
-            k = bisect.bisect_right(ends, pos)
-            start = ends[k - 1] if k else 0
-            room = limit - (pos - start)
-            take = max(1, min(len(c), room))
-            out.append(c[:take])
-            pos += take
-            c = c[take:]
-    return out
-
-
 # =================================================================================================== harness
 def run_case(world: World, family: str, path: str) -> None:
     """one simulated execution; one run in 64 (a pure function of the seed) also records the tracemalloc peak as a metric"""
@@ -463,9 +441,9 @@ def _run_case(world: World, family: str, path: str) -> None:
     starts = [0] + ends
     nframes = len(case.frames)
     chunks = _gen_reads(world, case, stream, ends)
-    d8_class_possible = family == "filebased"
-    if d8_class_possible and world.avoid_known:
-        chunks = _cap_reads(chunks, ends, limit)
+    # D8 (file-based: several small frames in one read larger than the limit were rejected) is fixed in /repo (ff67c53):
+    # multi-frame reads above the limit are generated in every run, for every family; a regression is reported under
+    # the same key C07/filebased/<path>/under-limit-rejected/multi-frame-read.
     wrap, make_driver = PATHS[path]
     drv = make_driver(wrap(case.make()), world)
     events: list[tuple[tuple, int]] = []
